@@ -382,7 +382,11 @@ mod raw {
                             break;
                         }
                     }
-                    Ok((_ident, Payload::Err(e))) => {
+                    Ok((ident, Payload::Err(e))) => {
+                        // The helper that reported the error has exited and
+                        // will send nothing more; do not wait for it again
+                        // in a later read.
+                        self.helper_set &= !(ident as u8);
                         return Err(e);
                     }
                     Err(Timeout) => {
